@@ -199,6 +199,9 @@ Definition b_parent (t : btree) (x : nat) : option nat := parent_of x t.
 Definition b_nkids (t : btree) (x : nat) : nat := match nkids_of x t with Some n => n | None => 0 end.
 (* the node denoted by an expression the translator has established not to be None *)
 Definition py_unwrap_n (o : option nat) : nat := match o with Some n => n | None => 0 end.
+(* a label set bound to a name that was initialised to None and is filled in later (`x = None` ..
+   `if x is None: x = set(...)`), at a use the translator has established to come after the fill *)
+Definition py_unwrap_labs (o : option (list lab)) : list lab := match o with Some l => l | None => [] end.
 
 (* node._parent_node.remove_child(node) *)
 Fixpoint remove_child (x : nat) (t : btree) : btree :=
